@@ -130,6 +130,23 @@ CHECKS["C16"] = {
     "assumptions": [],
 }
 
+CHECKS["C13"] = {
+    "pkg": "managerh",
+    "quick": {"wall_s": 30, "race_wall_s": 15, "race_max_runs": 500},
+    "thorough": {"wall_s": 420, "race_wall_s": 180, "race_max_runs": 1200},
+    "rule": "Scenario: real manager.Manager on the real connection.Manager; 1..3 scripted gNMI target endpoints on the simulated transport, each "
+            "with cycled session scripts (0..4 messages: update / sync / error response / empty response, optional virtual delays, then gRPC "
+            "error / end of stream / silence) and cycled dial outcomes (ok / refused / blocked, optional latency); 1..4 managed targets, some "
+            "sharing an endpoint, with global and per-target receive timeouts; 1..3 fault-actor tasks issuing Add / Remove / Reconnect / "
+            "duplicate Add / unknown Remove / unknown Reconnect after drawn virtual waits (ns to a minute); retry base/max delay drawn per "
+            "run, jitter off. Oracles: per-target callback automaton against what each scripted stream actually sent, silence after Remove "
+            "returned, refused calls, Remove returns (quiescence = deadlock oracle), retries never stop, back-off gap <= RetryMaxDelay, no "
+            "goroutine left after removing everything. Non-trivial: at least one callback and one manager call.",
+    "real": ["manager, connection (instrumented)", "generated gNMI client and server stubs", "cenkalti/backoff", "protobuf runtime"],
+    "stub": ["gRPC transport and dialling (simgrpc)", "target endpoints (scripted by the harness)", "glog"],
+    "assumptions": ["backoff jitter is disabled (RetryRandomization = 0) so that retry delays are a function of the tape"],
+}
+
 UNDER_CONSTRUCTION = "check under construction, not claimed yet"
 NOT_APPLICABLE = {p: UNDER_CONSTRUCTION for p in ["C%02d" % i for i in range(1, 21)]}
 NOT_APPLICABLE["C19"] = ("pure functions of their input (path indexing, value conversion): no schedule, clock, fault, peer or "
@@ -143,6 +160,15 @@ _SUB_NOTE = ("Trusts the harness's reading of paths (sim/gen), the cache referen
              "stream's gRPC semantics (FIFO, reliable, window-limited) and interval reasoning on global event stamps. Leaves that are only "
              "stream-compatible with a subscription (shorter than its path) are outside 'matching content' and not judged.")
 LEVELS = {
+    "C13": {
+        "text": "Seeded search over schedules and fault sequences (stream errors, end of stream, silence past the receive timeout, dial refusal "
+                "and stalls, forced reconnects, removal at arbitrary virtual times) with minute-long back-offs and timeouts costing "
+                "microseconds of wall time; callbacks are checked against a per-target session automaton and against what the scripted "
+                "streams actually sent. Evidence, not proof.",
+        "design_ref": "7 C13",
+        "note": "Trusts the simulated transport's stream semantics and the scripted endpoints' own records of what they sent. Liveness is asserted only as simulator quiescence and as bounds in virtual time.",
+        "technique": "deterministic simulation: seeded scheduler + virtual time + stream/dial fault scripts + callback automaton",
+    },
     "C16": {
         "text": "Seeded search over interleavings of Connection()/done() callers with scripted dial outcomes (fault injection at the dial seam: "
                 "refusal, slow dial, dial blocked until cancelled) and context cancellations at arbitrary points; reference-count clauses "
